@@ -586,9 +586,11 @@ func (p *Pool) Run(jobs []*Job) {
 
 func (p *Pool) solveOne(proc *Proc, j *Job) Answer {
 	// trivial cases
-	conj := term.And(j.Asserts...)
-	if conj.IsFalse() {
-		return Answer{Res: Unsat, Solver: "simplifier"}
+	// workers must not create terms (the term table is not synchronised): only inspect
+	for _, a := range j.Asserts {
+		if a.IsFalse() {
+			return Answer{Res: Unsat, Solver: "simplifier"}
+		}
 	}
 	a := proc.Check(j.Asserts, j.Want, p.FastCap)
 	if a.Res != Unknown {
